@@ -7,7 +7,7 @@ from core import Case
 from pyerr import exc_code
 
 PROP = 'C19'
-COQ_TARGETS = ['theories/RouterCacheFacts.vo']
+COQ_TARGETS = ['theories/RouterCacheFacts.vo', 'theories/RouterCacheSweep.vo']
 COQ_IMPORTS = 'From Bac Require Import Base RouterCache.'
 RULE = ('cases: histories over {learn(snet, router, dnets, status), status(snet, router), forget router, forget dnets, '
         'forget dnets of a router, forget with neither (refused), renumber(old, new)} on source nets {None,1,2,3} x routers '
